@@ -74,7 +74,13 @@ def impl_decode(g, bs, tn, env):
         with time_limit(5):
             # the byte string itself, another bytes-like object, or a binary stream positioned at the value
             r = FORM_RNG.random()
-            src = bytes(bs) if r < 0.6 else (io.BytesIO(bytes(bs)) if r < 0.85 else (bytearray(bs) if r < 0.93 else memoryview(bytes(bs))))
+            src = bytes(bs) if r < 0.6 else (io.BytesIO(bytes(bs)) if r < 0.75 else (bytearray(bs) if r < 0.83 else memoryview(bytes(bs)) if r < 0.9 else None))
+            if src is None:
+                # a stream POSITIONED at the value: other data precedes it (the decoder reads from the current position)
+                pre = bytes(FORM_RNG.randrange(256) for _ in range(FORM_RNG.choice([1, 8, 24])))
+                src = io.BytesIO(pre + bytes(bs))
+                src.seek(len(pre))
+                FORMS["decode_from:positioned-stream"] = FORMS.get("decode_from:positioned-stream", 0) + 1
             FORMS["decode_from:" + type(src).__name__] = FORMS.get("decode_from:" + type(src).__name__, 0) + 1
             v = S.decode(src, tn, env.ir.get_by_uuid)
     except ImplTimeout:
@@ -99,6 +105,17 @@ def gen_cases(ctx, g, n):
         lo, hi = (-(1 << (8 * k - 1)), (1 << (8 * k - 1)) - 1) if signed else (0, (1 << (8 * k)) - 1)
         for x in (lo, hi, 0, lo + 1, hi - 1):
             cases.append(((nm, []), x, env))
+    # a node together with the plain UUID that names it (two distinct Python objects, one wire element each): the count prefix
+    # counts what follows, element for element -- in a set, as mapping keys, as Offset element ids, nested
+    U, O, I = ("UUID", []), ("Offset", []), ("uint8_t", [])
+    for nd in env.attached[:3] + env.detached[:1]:
+        other = env.attached[-1]
+        cases.append((("set", [U]), {nd, nd.uuid}, env))
+        cases.append((("set", [U]), {nd, nd.uuid, other}, env))
+        cases.append((("set", [O]), {g.Offset(nd, 1), g.Offset(nd.uuid, 1)}, env))
+        cases.append((("mapping", [U, I]), {nd: 1, nd.uuid: 2}, env))
+        cases.append((("sequence", [("set", [U])]), [{nd, nd.uuid}, {other}], env))
+        cases.append((("tuple", [("set", [U]), I]), ({nd.uuid, nd}, 7), env))
     for _ in range(n):
         t = auxval.rand_type(rng, rng.choice([0, 1, 1, 2, 2, 3, 4, 5]))
         cases.append((t, auxval.rand_value(rng, t, env), env))
